@@ -148,14 +148,25 @@ def C13_inmem_handover_all_sequences_open : Prop :=
     aget (InMem.run InMem.init ops).slots slot = some (.live p uri st) →
     ∀ slot' st', aget (InMem.run InMem.init ops).slots slot' = some (.live p uri st') → slot' = slot
 
-/-- It is false without a side condition (finding FC13a): a pending open that already received the state and is
-then dropped loses it; the URI can never be opened again. -/
-theorem C13_inmem_cancelled_open_loses_state_fails :
+/-- A pending open that already received the state and is then cancelled (dropped) returns the state to the plane:
+the next open completes at once with exactly that state (the code after the FC13a fix; before it the state was lost
+and the URI could never be opened again). -/
+theorem C13_inmem_cancelled_open_returns_state (s : InMem.St) (a b p c : Nat) (uri : Bytes) (st : InMem.NodeState)
+    (ha : aget s.slots a = some (.waiting p uri c)) (hc : aget s.chans c = some (.full st))
+    (hn : aget s.nodes (p, uri) = some (.inUse none)) (hb : aget s.slots b = none) :
+    (InMem.step s (.drp a)).2 = .ok ∧
+    aget (InMem.step s (.drp a)).1.nodes (p, uri) = some (.idle st) ∧
+    (InMem.step (InMem.step s (.drp a)).1 (.opn b p uri)).2 = .ready ∧
+    aget (InMem.step (InMem.step s (.drp a)).1 (.opn b p uri)).1.slots b = some (.live p uri st) := by
+  have hab : b ≠ a := fun e => by rw [e, ha] at hb; exact absurd hb (by simp)
+  simp [InMem.step, ha, hc, InMem.dropLive, hn, aget_adel, hab, hb, InMem.openNode, aget_aset]
+
+/-- The FC13a witness, on the repaired code: the value written by the first instance is read by the third. -/
+example :
     let ops : List Op := [.opn 0 0 [47, 97], .data 0 (.idFor [99]), .data 0 (.put 0 [170]),
-                          .opn 1 0 [47, 97], .drp 0, .drp 1]
+                          .opn 1 0 [47, 97], .drp 0, .drp 1, .opn 2 0 [47, 97]]
     let s := InMem.run InMem.init ops
-    s.slots = [] ∧ aget s.nodes (0, [47, 97]) = some (.inUse none) ∧ s.chans = [] ∧
-    (InMem.step s (.opn 2 0 [47, 97])).2 = .pending := by decide
+    (InMem.step s (.data 2 (.get 0))).2 = .some [170] := by decide
 
 /-! ## T2: RocksDB as ordered byte maps -/
 
